@@ -31,6 +31,8 @@ def run(rep, tier):
     rep.rule("R3", "xdis.std's module-level names are the same-named members of the default API object and those are the same-named fields of its opcode table / bound finders")
     rep.rule("R4", "get_code_object probes __func__, __code__, gi_code, ag_code, cr_code, str (compile), co_code in dis._get_code_object's order")
     rep.rule("R5", "float version numbers 1.0 ... 3.9 convert to the right (major, minor)")
+    rep.rule("R6", "what the API returns is what the shared machinery computes: for every opcode table make_std_api can select, the decoder (C02 widths/operands, "
+                   "C03 operand values, C04 targets and labels) and the line-start finders (C05 rules) agree with Lib/dis.py of that version")
     T = tables()
     F = T.F
     repo = get_repo()
@@ -233,5 +235,24 @@ def run(rep, tier):
             rep.ob("R5", "xdis.std.make_std_api", "float=%s" % v, tuple(got) == want if isinstance(got, (tuple, list)) else False, expected=list(want), derived=got)
     else:
         rep.ob("R5", "xdis.std.make_std_api", "float-branch", False, expected="isinstance(python_version, float) conversion", derived="not found")
+    # ---------------------------------------------------------------- R6 the shared decoder and line-start machinery
+    from ..par import pmap
+    from ..report import SubReport, merge_sub
+    from . import c05
+    from .c12 import _decoder_work
+    subs = {p: SubReport(p) for p in ("C02", "C03", "C04")}
+    nops = 0
+    for res in pmap(_decoder_work, sorted(T.reachable)):
+        for (p_, rule, construct, detail, ok, exp, got, where, msg) in res:
+            if p_ == "META":
+                nops += detail
+            elif p_ in subs:
+                subs[p_].ob(rule, construct, detail, ok, expected=exp, derived=got, where=where, msg=msg)
+    rep.floor("(table, opcode) decoder specialisations", nops, 4000)
+    for p_ in sorted(subs):
+        merge_sub(rep, subs[p_], "R6", p_)
+    sub = SubReport("C05", tier=tier)
+    c05.run(sub, tier)
+    merge_sub(rep, sub, "R6", "C05")
     rep.assumptions = ["reference/codetype.json (dis._get_code_object of hosts 3.8-3.13)", "instruction fields, labels, line starts and stack effects are C02-C05, C15",
                        "equality of returned data with the host's dis is not evaluated; only the plumbing is decided"]
